@@ -220,10 +220,52 @@ fn run_one(cx: &Ctx<'_>, cfg: &NetCfg, ops: &[Op], prefix: &[usize], allow_dev: 
                 let m = net.nodes[i].mgr.clone();
                 stop_called_at[i] = Some(t0.elapsed());
                 world.note(format!("epilogue: stop() called on N{i}"));
+                // one instrumented lock-section boundary (a different one per node) is slow during this shutdown: a task
+                // that reaches it stays between its two critical sections for several scheduling rounds
+                const SLOW: [&str; 4] = ["handle_peer_connected:after-peers", "update_peer_info:before-peers", "find_closest_nodes_local:before-table", "send_dht_request:registered"];
+                saorsa_core::verif_hooks::set_sched_slow_point(None);
+                saorsa_core::verif_hooks::set_sched_slow_point(Some((SLOW[(i + prefix.len()) % SLOW.len()], 6)));
                 let h = tokio::spawn(async move { m.stop().await.map_err(|e| e.to_string()) });
+                // while stop() is in progress new peers keep connecting to the node (one per scheduling round): a
+                // connection event may then be pending at any step of the shutdown sequence
                 let mut c2 = Chooser::new(&[]);
-                let hh = &h;
-                let _ = drive(world, &mut c2, &|| hh.is_finished(), op_bound(), &|| vec![], &mut |_| {}, &mut |_| {}).await;
+                let te = tokio::time::Instant::now();
+                let mut churn = 0u32;
+                let mut round = 0u32;
+                loop {
+                    round += 1;
+                    // (not in the first round: the peers a node says goodbye to are those it had when stop() was called)
+                    if round > 1 && churn < 40 {
+                        use saorsa_core::verif_hooks::VerifSocket;
+                        let ctid = tid_with_prefix((churn % 16) as u32, cfg.bits, 5000 + 100 * i as u32 + churn);
+                        let caddr: std::net::SocketAddr = format!("172.{}.{}.9:9000", 20 + i, 1 + churn).parse().unwrap();
+                        let sock = world.add_endpoint(ctid, caddr, true);
+                        let _ = sock.connect(&[net.nodes[i].addr]).await;
+                        churn += 1;
+                    }
+                    settle().await;
+                    if h.is_finished() {
+                        break;
+                    }
+                    match c2.next(world, true, &[]) {
+                        Action::Deliver(f) => {
+                            world.deliver(f.seq);
+                        }
+                        Action::DeliverBurst(fs) => {
+                            for f in fs {
+                                world.deliver(f.seq);
+                            }
+                        }
+                        Action::Drop(f) => world.drop_frame(f.seq),
+                        Action::Advance => tokio::time::sleep(REQUEST_TIMEOUT).await,
+                        Action::Extra(_) => {}
+                        Action::Done => break,
+                    }
+                    if te.elapsed() > op_bound() {
+                        break;
+                    }
+                }
+                saorsa_core::verif_hooks::set_sched_slow_point(None);
                 if h.is_finished() {
                     stop_returned_at[i] = Some(t0.elapsed());
                     stop_trace_idx[i] = Some(world.trace().len());
